@@ -1,0 +1,30 @@
+//go:build verif
+
+package lexer
+
+// Verification hook H1 (build tag verif only): a per-lexer step counter.
+// A correct parser requests each token once and stops at EOF, so the number
+// of NextToken/readChar steps is linear in the input length. When the count
+// exceeds a generous linear budget the lexer panics with VerifBudgetExceeded,
+// which turns "the parser loops forever" into a deterministic, clock-free
+// observation.
+
+// VerifBudgetExceeded is the panic value raised when the budget is exhausted.
+type VerifBudgetExceeded struct {
+	Steps    int
+	InputLen int
+}
+
+type verifLexState struct {
+	steps int
+}
+
+// VerifSteps reports the steps taken so far by this lexer.
+func (l *Lexer) VerifSteps() int { return l.verif.steps }
+
+func (l *Lexer) verifTick() {
+	l.verif.steps++
+	if l.verif.steps > 64*len(l.input)+4096 {
+		panic(VerifBudgetExceeded{Steps: l.verif.steps, InputLen: len(l.input)})
+	}
+}
